@@ -55,7 +55,47 @@ fn mutate(mut data: Vec<u8>, seed: u64, k: usize) -> Vec<u8> {
     data
 }
 
+/// a two-page document around one of the large image objects of tests/test_files/filter_tests (object 15 0:
+/// 286 200 bytes raw, or the same behind ASCII85Decode): page 1 draws it as an XObject (dump_root decodes it),
+/// page 2 optionally uses it as its /Contents (the decoded pixels go through the text extractor)
+fn image_doc(obj15: &[u8], as_contents: bool) -> Vec<u8> {
+    let mut body: Vec<u8> = b"%PDF-1.4\n".to_vec();
+    let mut offs: Vec<usize> = Vec::new();
+    let c2 = if as_contents { "15 0 R" } else { "4 0 R" };
+    let texts: Vec<Vec<u8>> = vec![
+        b"<< /Type /Catalog /Pages 2 0 R >>".to_vec(),
+        b"<< /Type /Pages /Kids [3 0 R 5 0 R] /Count 2 >>".to_vec(),
+        b"<< /Type /Page /Parent 2 0 R /MediaBox [0 0 9 9] /Contents 4 0 R /Resources << /XObject << /Im1 15 0 R >> >> >>".to_vec(),
+        b"<< /Length 11 >>\nstream\nq /Im1 Do Q\nendstream".to_vec(),
+        format!("<< /Type /Page /Parent 2 0 R /MediaBox [0 0 9 9] /Contents {} >>", c2).into_bytes(),
+    ];
+    for (i, t) in texts.iter().enumerate() {
+        offs.push(body.len());
+        body.extend_from_slice(format!("{} 0 obj\n", i + 1).as_bytes());
+        body.extend_from_slice(t);
+        body.extend_from_slice(b"\nendobj\n");
+    }
+    for i in 6 .. 15 {
+        offs.push(body.len());
+        body.extend_from_slice(format!("{} 0 obj\nnull\nendobj\n", i).as_bytes());
+    }
+    offs.push(body.len());
+    body.extend_from_slice(obj15);
+    let x = body.len();
+    body.extend_from_slice(b"xref\n0 16\n0000000000 65535 f \n");
+    for o in &offs {
+        body.extend_from_slice(format!("{:010} 00000 n \n", o).as_bytes());
+    }
+    body.extend_from_slice(format!("trailer\n<< /Size 16 /Root 1 0 R >>\nstartxref\n{}\n%%EOF\n", x).as_bytes());
+    body
+}
+
 fn gen(seed: u64, n: usize, tier: &str, emit: &mut dyn FnMut(String)) {
+    for (f, c) in [("xobject_stm.obj", false), ("xobject_stm_ascii85.obj", false), ("xobject_stm_ascii85.obj", true), ("xobject_stm.obj", true)] {
+        if let Some(o) = sample(&format!("filter_tests/{}", f)) {
+            emit(format!("doc {}", hex(&image_doc(&o, c))));
+        }
+    }
     let stride = if tier == "thorough" { 1 } else { 23 };
     for f in SAMPLES {
         let data = match sample(f) {
@@ -93,6 +133,8 @@ fn bytes_of_case(w: &[&str]) -> Option<Vec<u8>> {
     }
 }
 
+static TIMEOUTS: std::sync::atomic::AtomicUsize = std::sync::atomic::AtomicUsize::new(0);
+
 fn run(line: &str) -> String {
     let w: Vec<&str> = line.split_whitespace().collect();
     if w.is_empty() {
@@ -122,7 +164,9 @@ fn run(line: &str) -> String {
         Err(e) => return format!("bad-case cannot-spawn {}", e),
     };
     let start = Instant::now();
-    let limit = Duration::from_secs(10);
+    // 10 s per case; once five cases of this run have timed out (a mutant that hangs on a whole family of
+    // documents) the remaining ones get 1 s, so that the check still ends in reasonable time
+    let limit = Duration::from_secs(if TIMEOUTS.load(std::sync::atomic::Ordering::Relaxed) >= 5 { 1 } else { 10 });
     let status = loop {
         match child.try_wait() {
             Ok(Some(st)) => break Some(st),
@@ -138,8 +182,12 @@ fn run(line: &str) -> String {
         }
     };
     let _ = std::fs::remove_file(&path);
+    let _ = std::fs::remove_dir(&dir); // leave nothing behind under /tmp
     match status {
-        None => "abnormal timeout".to_string(),
+        None => {
+            TIMEOUTS.fetch_add(1, std::sync::atomic::Ordering::Relaxed);
+            "abnormal timeout".to_string()
+        },
         Some(st) => match (st.code(), st.signal()) {
             (Some(0), _) => "completed".to_string(),
             (Some(1), _) => "rejected".to_string(),
